@@ -62,6 +62,13 @@ def build_harness(ctx, race=False):
     """Rebuilds the harness from /repo's current working tree with the hooks on."""
     out = os.path.join(ctx.scratch, "yvh-race" if race else "yvh")
     cmd = ["go", "build", "-tags", "verif", "-o", out]
+    if REPO != "/repo":
+        # own tooling only (seeded changes tried on a scratch copy while /repo stays untouched):
+        # the same harness module with its replace directive pointing at the copy
+        alt = os.path.join(ctx.scratch, "alt.mod")
+        open(alt, "w").write(open(os.path.join(HARNESS, "go.mod")).read().replace("=> /repo", "=> " + REPO))
+        shutil.copy(os.path.join(HARNESS, "go.sum"), os.path.join(ctx.scratch, "alt.sum"))
+        cmd.append("-modfile=" + alt)
     if race:
         cmd.append("-race")
     cmd.append("./cmd/yvh")
@@ -354,17 +361,18 @@ def load_findings():
 
 def finish(ctx, level, violations, known_hits, coverage, assumptions):
     """Writes evidence, prints verdict lines, returns exit code."""
-    os.makedirs(os.path.join(VERIF, "evidence"), exist_ok=True)
-    os.makedirs(os.path.join(VERIF, "replays"), exist_ok=True)
-    for f in os.listdir(os.path.join(VERIF, "replays")):
+    OUT = os.environ.get("VERIF_OUT", VERIF)   # own tooling only: where evidence and replays go
+    os.makedirs(os.path.join(OUT, "evidence"), exist_ok=True)
+    os.makedirs(os.path.join(OUT, "replays"), exist_ok=True)
+    for f in os.listdir(os.path.join(OUT, "replays")):
         if f.startswith(ctx.prop + "-") and ".min" not in f:
-            os.remove(os.path.join(VERIF, "replays", f))
+            os.remove(os.path.join(OUT, "replays", f))
     for f, what in sorted(known_hits.items()):
         print("KNOWN-FINDING: property=%s %s" % (ctx.prop, what))
     n = 0
     for v in violations:
         n += 1
-        path = os.path.join(VERIF, "replays", "%s-%d.json" % (ctx.prop, n))
+        path = os.path.join(OUT, "replays", "%s-%d.json" % (ctx.prop, n))
         json.dump(v, open(path, "w"), indent=1)
         print("VIOLATION property=%s replay=%s" % (ctx.prop, path))
         if n >= 20:
@@ -376,5 +384,5 @@ def finish(ctx, level, violations, known_hits, coverage, assumptions):
     ev = {"property_id": ctx.prop, "tier": ctx.tier, "seed": ctx.seed, "level": level, "coverage": cov,
           "assumptions": assumptions, "wall_s": round(time.time() - ctx.t0, 1), "violations": len(violations),
           "known_findings_reproduced": sorted(known_hits.keys()), "notes": ctx.notes}
-    json.dump(ev, open(os.path.join(VERIF, "evidence", ctx.prop + ".json"), "w"), indent=1)
+    json.dump(ev, open(os.path.join(OUT, "evidence", ctx.prop + ".json"), "w"), indent=1)
     return 1 if violations else 0
